@@ -301,6 +301,18 @@ def check_case(case, ctr):
             blob = pickle.dumps(c0, protocol=proto)
             same(pickle.loads(blob), 'pickle-context', state=state, protocol=proto)
         Ctx.payloads.append(('pickle-context', case.ident(), blob, ref_dg))
+    # two pickled contexts over the same labels (complemented table), both loaded here, first used last
+    inv = [tuple(not b for b in r) for r in case.rows]
+    sib = C(case.objs, case.props, inv)
+    pa, pb = pickle.dumps(case.fresh_ctx()), pickle.dumps(sib)
+    a2 = pickle.loads(pa)
+    b2 = pickle.loads(pb)
+    same(a2, 'pickle-context-with-sibling')
+    try:
+        if digest(full_obs(b2)) != digest(full_obs(C(case.objs, case.props, inv))):
+            bad('pickle-context-with-sibling', 'sibling context equivalent to its own table', 'differs')
+    except Exception as e:
+        bad('pickle-context-with-sibling', 'a context', f'{type(e).__name__}: {e}')
     # pickle of the lattice
     lat = fresh.lattice
     for proto in range(2, pickle.HIGHEST_PROTOCOL + 1):
